@@ -68,10 +68,12 @@ def gen_fuzz(rng, alphabet, n):
 PIN_ROWS = [("你", "ni", 100), ("好", "hao", 90), ("你好", "ni hao", 80), ("妮", "ni", 10), ("號", "hao", 5), ("嗎", "ma", 50),
             ("媽", "ma", 40), ("你好嗎", "ni hao ma", 30), ("啊", "a", 60), ("阿", "a", 20), ("愛", "ai", 55), ("安", "an", 33),
             ("中", "zhong", 70), ("國", "guo", 66), ("中國", "zhong guo", 61), ("西", "xi", 12), ("安", "an", 3), ("西安", "xi an", 9)]
-CJ_ROWS = [("日", "a", 9), ("月", "b", 8), ("明", "ab", 7), ("金", "c", 6), ("木", "d", 5), ("林", "dd", 4), ("森", "ddd", 3), ("水", "e", 2)]
+CJ_ROWS = [("日", "a", 9), ("月", "b", 8), ("明", "ab", 7), ("金", "c", 6), ("木", "d", 5), ("林", "dd", 4), ("森", "ddd", 3), ("水", "e", 2),
+           # characters of the pinyin dictionary: what reverse_lookup_filter@cangjie_lookup finds in the reverse db
+           ("你", "onf", 1), ("好", "vnd", 1), ("嗎", "rsqf", 1), ("啊", "rnlr", 1), ("中", "l", 1), ("國", "wirm", 1), ("安", "jv", 1), ("西", "mcw", 1)]
 
 
-def make_full_workspace(d, user_dict=True, second_prism=False):
+def make_full_workspace(d, user_dict=True, second_prism=False, fix_order=True):
     """a stock-like workspace: luna_pinyin's schema structure (all stock components) over tiny dictionaries"""
     shutil.rmtree(d, ignore_errors=True)
     os.makedirs(d)
@@ -84,6 +86,13 @@ def make_full_workspace(d, user_dict=True, second_prism=False):
     s = s.replace("schema_id: luna_pinyin", "schema_id: vs_full").replace("dictionary: luna_pinyin", "dictionary: vs_pin") \
          .replace("dictionary: cangjie5", "dictionary: vs_cj")
     s += "\nmenu:\n  page_size: 4\n  alternative_select_labels: [ ①, ②, ③, ④ ]\n"
+    # the dependency is what makes the deployment compile the second dictionary (cangjie / reverse lookup / cangjie_lookup)
+    assert "\nschema:\n" in s and "dependencies" not in s
+    s = s.replace("\nschema:\n", "\nschema:\n  dependencies:\n    - vs_cjs\n", 1)
+    with open(os.path.join(d, "vs_cjs.schema.yaml"), "w", encoding="utf-8") as f:
+        f.write("schema:\n  schema_id: vs_cjs\n  name: cj\n  version: '1'\nengine:\n  processors: [speller, selector, navigator, express_editor]\n"
+                "  segmentors: [abc_segmentor, fallback_segmentor]\n  translators: [table_translator]\n"
+                "translator:\n  dictionary: vs_cj\n  enable_user_dict: false\n")
     if not user_dict:   # learning disabled (C16)
         s = s.replace("translator:\n  dictionary: vs_pin", "translator:\n  dictionary: vs_pin\n  enable_user_dict: false")
         s = s.replace("  dictionary: vs_cj\n  prefix: 'C:'", "  dictionary: vs_cj\n  enable_user_dict: false\n  prefix: 'C:'")
@@ -100,8 +109,9 @@ def make_full_workspace(d, user_dict=True, second_prism=False):
         # the `select: .next` hotkey applies the second entry of the switcher's schema list; with the list in its fixed
         # order that entry depends on the session's own schema only (by default it is the persisted recency order, which
         # every session's schema change updates)
-        default = default.replace("switcher:\n", "switcher:\n  fix_schema_list_order: true\n", 1)
-        assert "fix_schema_list_order" in default
+        if fix_order:
+            default = default.replace("switcher:\n", "switcher:\n  fix_schema_list_order: true\n", 1)
+            assert "fix_schema_list_order" in default
         open(os.path.join(d, "default.yaml"), "w", encoding="utf-8").write(default)
     open(os.path.join(d, "vs_script.schema.yaml"), "w").write(sc.schema_yaml("vs_script", sc.SCHEMAS["vs_script"]))
     with open(os.path.join(d, "vs_pin.dict.yaml"), "w", encoding="utf-8") as f:
